@@ -410,7 +410,7 @@ CLAIM = {
     "text": "Taint/provenance rule over the MIR of every function and closure in the string scalar-function module (sources: integer "
             "parameters and char counts; sinks: str/String slicing, split_at, truncate, drain, insert…; only value-preserving helpers "
             "propagate) plus an edge-dominance guard rule on the LIKE rewrite. Both hold or fail for all inputs by code shape; the "
-            "string values produced are outside static reach. Plus the integer-argument discipline of the string functions: an SQL integer argument is never negated raw, and is used in overflow-checked arithmetic or converted to an unsigned count only behind a comparison that makes it non-negative; every unsigned subtraction is dominated by a comparison of its own two operands.",
+            "string values produced are outside static reach. Plus the integer-argument discipline of the string functions: an SQL integer argument is never negated raw, and is used in overflow-checked arithmetic or converted to an unsigned count only behind a comparison that makes it non-negative; every unsigned subtraction is dominated by a comparison of its own two operands. Range loops whose bound derives from an integer argument have an upper bound before them or a data-dependent exit inside.",
     "note": "trusted: rustc MIR; the sink and transparent-call tables in rules/c20.py and rules/mir.py; byte offsets returned by std "
             "char-boundary APIs are assumed valid boundaries",
     "technique": "static analysis: MIR taint/provenance + edge-dominance guard rule (rustc_private driver)",
